@@ -300,11 +300,13 @@ func replaySeq(rep *vh.Report, rf *vh.ReplayFile) {
 func TestProp(t *testing.T) {
 	env := vh.GetEnv()
 	rep := vh.NewReport("C15", "exploration")
-	rep.Rule("sequential: ALL event sequences over {start, finish-ok/finish-fail of the oldest running call admitted in generation g (for every g with running calls), advance past the back-off deadline, advance short of it (once per open period)} of the stated depth for (trip,reset,cap) in {1,2,3}^3, each run against a fresh real Breaker with every event serialised and compared with the reference machine after every event; plus random walks of 200 events with (trip,reset,cap) in {1..4}^3. concurrent: short histories (<=25 operations: begin/end of each call, clock advances, H1 snapshots) of 4-8 goroutines at GOMAXPROCS 2/4/16, checked with porcupine against the same machine. evaluations = sequences + walks + histories. distinct = (parameter triple, abstract reference transition) pairs reached by the exhaustive enumeration + distinct walks + distinct concurrent history shapes (operation order by call/return stamp)")
+	rep.Rule("sequential: ALL event sequences over {start, finish-ok/finish-fail of the oldest running call admitted in generation g (for every g with running calls), advance past the back-off deadline, advance short of it (once per open period)} of the stated depth for (trip,reset,cap) in {1,2,3}^3, each run against a fresh real Breaker with every event serialised and compared with the reference machine after every event; plus random walks of 200 events with (trip,reset,cap) in {1..4}^3. concurrent: short histories (<=25 operations: begin/end of each call, clock advances, H1 snapshots) of 4-8 goroutines at GOMAXPROCS 2/4/16, checked with porcupine against the same machine. client: scripted scenarios (continuation page while open, half-open cap with pagination, result equality incl. nested groups and 404, failing continuation page that trips, calls attempted while open) against the real GoogleAdminService and a fake directory API. evaluations = sequences + walks + histories + client scenarios. distinct = (parameter triple, abstract reference transition) pairs reached by the exhaustive enumeration + distinct walks + distinct concurrent history shapes (operation order by call/return stamp)")
 	rep.Assume("the harness clock serves Now() from an atomic counter (benbjohnson mock embedded for the unused methods): the mock's Add() sleeps 1 ms per call; the breaker only calls Now()")
 	rep.Assume("the open -> half-open transition is evaluated when the breaker is consulted (call start, call completion), as the property's anchors describe; the reference machine is consulted at the same points")
 	rep.Assume("the half-open cap bounds the calls in flight, including calls admitted before the half-open period that are still running (strict reading of 'admits at most the configured number of concurrent calls')")
 	rep.Assume("clock advances never land exactly on a back-off deadline")
+	rep.Assume("client slice: providers.NewGoogleProvider is built as in production (real breaker options trip>=3/reset>=6/cap 2, real clock, jittered back-off <= 500 ms after the first trip) from a generated service-account file whose token_uri is the fake; http.DefaultTransport is replaced for the duration so that www.googleapis.com resolves to the fake Admin SDK API; the fake holds every request until the driver answers it, so each caller is parked inside a held request at every check; scenarios in which the real-time back-off ran out before the probe are counted as uninformative (client_backoff_ran_out_before_probe), never judged")
+	rep.Assume("client slice rule H1 reads the service's unexported breaker field by reflection (read-only) and is skipped, with a counter, if the field is not found")
 
 	rf := env.LoadReplay()
 	switch {
